@@ -161,6 +161,7 @@ struct Outcome
     std::vector<std::string> allowed;      // without marks: what a touched variant may hold after a throw
     std::vector<std::string> touched_after;// without marks: what each touched variant holds afterwards
     std::vector<std::string> errs;         // lifetime registry / accessor disagreement
+    std::string a_before, b_before, a_after, b_after;   // greedy part: the two operands, with marks
 };
 static void drain(Outcome& o, const char* phase)
 {
@@ -175,6 +176,18 @@ static std::string join(const std::vector<std::string>& v, const char* sep = "; 
 }
 static const char* const CATN[3] = {"lvalue", "const lvalue", "rvalue"};
 
+// PART: 0 = both parts in one binary, 1 = only the aliasing part, 2 = only the greedy part (separate binaries build in parallel)
+#ifndef PART
+#define PART 0
+#endif
+// GCLS: -1 = every class of the greedy alternative in this binary, 0..2 = only that one
+#ifndef GCLS
+#define GCLS -1
+#endif
+#define G_ON(c) (GCLS < 0 || GCLS == (c))
+static std::string g_current, g_current_case;
+
+#if PART != 2
 // ================================================================================================================ alias
 static const int BOXTAG = 77;
 struct Rec
@@ -207,6 +220,7 @@ struct Box
     explicit Box(V* c) : child(c) { born(this, BOXTAG); }
     Box(const Box& o) : child(nullptr)
     {
+        pl::throw_point("Box copy ctor");
         if (src_ok(&o, BOXTAG, "copy-construction from") && o.child) child = arena_new<V>(*o.child);
         born(this, BOXTAG);
     }
@@ -218,6 +232,7 @@ struct Box
     // both assignments take what they need from the source before they release the old child (as std::unique_ptr does)
     Box& operator=(const Box& o)
     {
+        pl::throw_point("Box copy assign");
         if (!src_ok(this, BOXTAG, "copy-assignment to") || !src_ok(&o, BOXTAG, "copy-assignment from") || this == &o) return *this;
         V* n = o.child ? arena_new<V>(*o.child) : nullptr;
         V* old = child;
@@ -425,12 +440,12 @@ static std::vector<std::string> shapes(int depth)
 
 static long long g_cases = 0, g_in = 0, g_out = 0, g_fault_runs = 0, g_impl_runs = 0, g_skipped = 0;
 
-// returns false when (ti, si) is beyond the nodes of this shape
-static bool alias_case(const std::string& shape, int ti, int si, int cat, int form, bool verbose)
+static void alias_case(const std::string& shape, int ti, int si, int cat, int form, bool verbose)
 {
     const std::string id = "e" + str(ECLS) + "|" + shape + "|" + str(ti) + "|" + str(si) + "|" + str(cat) + "|" + str(form);
+    g_current_case = id;
     Outcome s = AliasWorld<SApi>::run(shape, ti, si, cat, form, 0);
-    if (!s.applicable) { ++g_skipped; return s.statement.empty() ? false : true; }
+    if (!s.applicable) { ++g_skipped; return; }
     ++g_cases;
     static const char* const FORMN[3] = {"operator=", "emplace<I>", "emplace<T>"};
     const std::string what = std::string(ECLASS) + "; tree of variant<E, Rec{E e;}, Box{variant* child;}> with " + s.before + "; statement `" + s.statement + "` (source: " + CATN[cat] + "): ";
@@ -440,7 +455,7 @@ static bool alias_case(const std::string& shape, int ti, int si, int cat, int fo
         // std::variant itself reads a destroyed object / leaks: the specification destroys first here, the aliasing argument is the caller's error
         ++g_out;
         if (verbose) std::printf("outside the contract (std::variant itself: %s)\n", join(s.errs).c_str());
-        return true;
+        return;
     }
     ++g_in;
     const std::string sigp = "C05/alias/e" + str(ECLS) + "/" + FORMN[form] + "/" + CATN[cat] + "/";
@@ -451,7 +466,7 @@ static bool alias_case(const std::string& shape, int ti, int si, int cat, int fo
     if (!x.errs.empty()) vf::violation(sigp + "lifetime", what + "std::variant executes it without touching a destroyed object and ends with " + s.after + "; xtl::variant ends with " + x.after + " and: " + join(x.errs), rp);
     else if (x.threw) vf::violation(sigp + "threw", what + "threw although no throw point was armed", rp);
     else if (x.after != s.after) vf::violation(sigp + "result", what + "expected (std::variant) " + s.after + ", got " + x.after, rp);
-    if (!x.errs.empty() || x.threw) return true;
+    if (!x.errs.empty() || x.threw) return;
     for (int k = 1; k <= x.points; ++k)
     {
         Outcome f = AliasWorld<XApi>::run(shape, ti, si, cat, form, k);
@@ -464,7 +479,7 @@ static bool alias_case(const std::string& shape, int ti, int si, int cat, int fo
         for (auto& a : f.allowed) if (a == f.touched_after[0]) ok = true;
         if (!ok) vf::violation(sigp + "fault/state", fw + "the target holds " + f.touched_after[0] + ", which is neither valueless nor what the target (" + f.allowed[1] + ") or the source (" + f.allowed[2] + ") held before", rp);
     }
-    return true;
+    return;
 }
 
 static void run_alias(int depth)
@@ -485,6 +500,9 @@ static void run_alias(int depth)
     vf::sample(std::string("alias e") + str(ECLS) + ": root: Box{Rec{E=11}}; `root = get<Rec>(*get<Box>(root).child).e;` judged against std::variant and the lifetime registry", 1 << 20);
 }
 
+#endif   // PART != 2
+
+#if PART != 1
 // ================================================================================================================ greedy
 struct Desc { int kind; int val; };   // kind 1 int, 2 E, 9 a variant (val = its index, -1 valueless)
 static Desc describe(const int& x) { return Desc{1, x}; }
@@ -723,6 +741,7 @@ struct GreedyWorld
             R().errors.clear();
             o.statement = gop_name(op);
             o.before = "a: " + obs(a, true) + ", b: " + obs(b, true);
+            o.a_before = obs(a, true); o.b_before = obs(b, true);
             o.allowed.push_back("valueless");
             o.allowed.push_back(strip(obs(a, false)));
             o.allowed.push_back(strip(obs(b, false)));
@@ -737,6 +756,7 @@ struct GreedyWorld
             R().armed = false;
             drain(o, "during the statement");
             o.after = "a: " + obs(a, true) + ", b: " + obs(b, true) + (c ? ", c: " + obs(*c, true) : std::string());
+            o.a_after = obs(a, true); o.b_after = obs(b, true);
             o.touched_after.push_back(strip(obs(a, false)));
             o.touched_after.push_back(strip(obs(b, false)));
             if (c) o.touched_after.push_back(strip(obs(*c, false)));
@@ -766,6 +786,7 @@ static void greedy_case(int sa, int sb, int op, bool verbose)
     typedef GreedyWorld<SApi, GC, POS> SW;
     const std::string id = "e" + str(ECLS) + "|" + str(GC) + "|" + str(POS) + "|" + str(sa) + "|" + str(sb) + "|" + str(op);
     const std::vector<std::string> rp = {"--greedy", id};
+    g_current_case = id;
     Outcome s = SW::run(sa, sb, op, 0);
     Outcome x = XW::run(sa, sb, op, 0);
     ++q_cases; ++q_impl_runs;
@@ -776,7 +797,13 @@ static void greedy_case(int sa, int sb, int op, bool verbose)
     if (!s.errs.empty() || s.threw) { vf::violation("C05/greedy/harness-std-variant", what + "std::variant itself: " + join(s.errs), rp); return; }
     if (x.before != s.before) { vf::violation(sigp + "setup", what + "the initial states differ: xtl::variant " + x.before, rp); return; }
     if (x.threw) { vf::violation(sigp + "threw", what + "threw although no throw point was armed", rp); return; }
-    if (x.after != s.after) { vf::violation(sigp + "result", what + "expected (std::variant) " + s.after + "; got " + x.after + (x.errs.empty() ? "" : "; " + join(x.errs)), rp); return; }
+    if (op == 27 || op == 28)
+    {
+        // [variant.swap] written out (the values are exchanged, a valueless operand included). Not taken from std::variant: libstdc++ 12
+        // leaves the non-valueless operand unchanged when the other one is valueless, which is not what [variant.swap] says
+        if (x.a_after != s.b_before || x.b_after != s.a_before) { vf::violation(sigp + "result", what + "expected ([variant.swap]) a: " + s.b_before + ", b: " + s.a_before + "; got " + x.after + (x.errs.empty() ? "" : "; " + join(x.errs)), rp); return; }
+    }
+    else if (x.after != s.after) { vf::violation(sigp + "result", what + "expected (std::variant) " + s.after + "; got " + x.after + (x.errs.empty() ? "" : "; " + join(x.errs)), rp); return; }
     if (!x.errs.empty()) { vf::violation(sigp + "accessors-or-lifetime", what + "ends with " + x.after + " and: " + join(x.errs), rp); return; }
     for (int k = 1; k <= x.points; ++k)
     {
@@ -807,7 +834,15 @@ static void greedy_class(bool deep) { greedy_set<GC, 0>(deep); greedy_set<GC, 1>
 
 static void run_greedy(bool deep)
 {
-    greedy_class<0>(deep); greedy_class<1>(deep); greedy_class<2>(deep);
+#if G_ON(0)
+    greedy_class<0>(deep);
+#endif
+#if G_ON(1)
+    greedy_class<1>(deep);
+#endif
+#if G_ON(2)
+    greedy_class<2>(deep);
+#endif
     vf::stat("greedy_cases", q_cases);
     vf::stat("greedy_faulted_runs", q_fault_runs);
     vf::stat("greedy_alternative_sets", q_sets);
@@ -821,17 +856,26 @@ static void greedy_dispatch(int gc, int pos, int sa, int sb, int op)
 {
     switch (gc * 3 + pos)
     {
+#if G_ON(0)
     case 0: greedy_case<0, 0>(sa, sb, op, true); break;
     case 1: greedy_case<0, 1>(sa, sb, op, true); break;
     case 2: greedy_case<0, 2>(sa, sb, op, true); break;
+#endif
+#if G_ON(1)
     case 3: greedy_case<1, 0>(sa, sb, op, true); break;
     case 4: greedy_case<1, 1>(sa, sb, op, true); break;
     case 5: greedy_case<1, 2>(sa, sb, op, true); break;
+#endif
+#if G_ON(2)
     case 6: greedy_case<2, 0>(sa, sb, op, true); break;
     case 7: greedy_case<2, 1>(sa, sb, op, true); break;
-    default: greedy_case<2, 2>(sa, sb, op, true); break;
+    case 8: greedy_case<2, 2>(sa, sb, op, true); break;
+#endif
+    default: std::printf("this binary does not contain class %d of the greedy alternative\n", gc); break;
     }
 }
+
+#endif   // PART != 1
 
 static std::vector<std::string> split(const std::string& s)
 {
@@ -847,8 +891,6 @@ static std::vector<std::string> split(const std::string& s)
     return out;
 }
 
-static std::string g_current;
-
 int main(int argc, char** argv)
 {
     std::string part = "all";
@@ -856,7 +898,8 @@ int main(int argc, char** argv)
     bool deep = false;
     vf::install_crash_handler();
     vf::crash_hook() = [](const char* signame) {
-        vf::violation("C05/alias-greedy/crash", std::string("the process died with ") + signame + " (part " + g_current + ")", {"--part", g_current});
+        vf::violation("C05/" + g_current + "/crash", std::string("the process died with ") + signame + " while executing case " + g_current_case + " of part " + g_current + " (case id: element class | " +
+                      (g_current == "alias" ? "tree shape | target variant node | source node | value category | form" : "class of G | position of G | state of a | state of b | operation") + ")", {"--" + g_current, g_current_case});
     };
     for (int i = 1; i < argc; ++i)
     {
@@ -868,7 +911,10 @@ int main(int argc, char** argv)
         {
             std::vector<std::string> f = split(argv[++i]);
             if (f.size() != 6 || f[0] != "e" + str(ECLS)) { std::printf("bad case id\n"); return 2; }
+            g_current = "alias";
+#if PART != 2
             alias_case(f[1], atoi(f[2].c_str()), atoi(f[3].c_str()), atoi(f[4].c_str()), atoi(f[5].c_str()), true);
+#endif
             vf::done();
             return 0;
         }
@@ -876,13 +922,21 @@ int main(int argc, char** argv)
         {
             std::vector<std::string> f = split(argv[++i]);
             if (f.size() != 6 || f[0] != "e" + str(ECLS)) { std::printf("bad case id\n"); return 2; }
+            g_current = "greedy";
+#if PART != 1
             greedy_dispatch(atoi(f[1].c_str()), atoi(f[2].c_str()), atoi(f[3].c_str()), atoi(f[4].c_str()), atoi(f[5].c_str()));
+#endif
             vf::done();
             return 0;
         }
     }
+#if PART != 2
     if (part == "all" || part == "alias") { g_current = "alias"; run_alias(depth); }
+#endif
+#if PART != 1
     if (part == "all" || part == "greedy") { g_current = "greedy"; run_greedy(deep); }
+#endif
+    (void)depth; (void)deep;
     vf::done();
     return 0;
 }
